@@ -158,6 +158,7 @@ def check(prop, mod, a, seed, t0):
             if ob.status != "proved" and ob.name not in seen:
                 seen.add(ob.name)
                 print("EXPLAIN", ob.name)
+                print("    trace:", " ".join(getattr(ob, "trace", [])))
                 for r, c in debug.explain(eng, ob):
                     if r != "unsat":
                         print("   ", r, c)
